@@ -97,8 +97,17 @@ def _conn_close_calls(f):
     for c in walk_own(f.node):
         if isinstance(c, ast.Call) and isinstance(c.func, ast.Attribute) and c.func.attr == "close" and not c.args:
             v = c.func.value
-            if (isinstance(v, ast.Name) and v.id == "conn") or (isinstance(v, ast.Attribute) and v.attr == "conn"):
+            if isinstance(v, ast.Attribute) and v.attr == "conn":
                 out.append(c)
+            elif isinstance(v, ast.Name):
+                if v.id in f.params and v.id.startswith("conn"):
+                    out.append(c)
+                    continue
+                for s in stores_to_name(f, v.id):
+                    src = norm(getattr(s.ast, "value", None)) if getattr(s.ast, "value", None) is not None else ""
+                    if "TConn(" in src or "_keep.pop" in src or ".result()" in src:
+                        out.append(c)
+                        break
     return out
 
 
@@ -152,7 +161,7 @@ def r2(ctx):
         okk = any(s is x for s in blk for ff, x in decs if ff is f)
         ctx.check("C13.R2", okk, key(f, "close-without-decrement|" + norm(c)), site(f, c), "a connection is closed without nr_conns -= 1 in the same block: the worker believes it is still open and eventually stops accepting",
                   "close paired with decrement")
-    ctx.floor("C13.R2", "release sites", len(decs), 4)
+    ctx.floor("C13.R2", "release sites", len(decs), 2)
 
 
 def r3(ctx):
